@@ -47,6 +47,8 @@ PLAN = {
             # MTBDD and TDD: the canonicity clauses (equal value tables <=> identical handles) of their own monitors
             {"monitor": "c10_dd", "variant": "rel", "shards": 16},
             {"monitor": "c11_rand", "variant": "rel", "shards": 16},
+            # canonicity across the concurrent reordering paths (>= 65536 nodes, 2..8 workers): rebuilt function == surviving handle
+            {"monitor": "c08_large", "variant": "rel", "shards": 4, "parallel": 4},
         ],
         "require_counters": {"all": ["gcs_that_freed", "audits"]},
     },
@@ -106,6 +108,7 @@ PLAN = {
         "jobs": [
             {"monitor": "c06_diff", "variant": "rel", "shards": 16},
             {"monitor": "c06_diff", "variant": "dbg", "shards": 8},
+            {"monitor": "c06_diff", "variant": "pointer", "shards": 8},
             {"monitor": "c06_subst_ids", "variant": "rel", "shards": 4, "parallel": 4, "nondeterministic": True},
             # operator / operand-order key mix-ups for the other kinds: different operators (and swapped operands) on the
             # same operands back-to-back on one manager with caches of 1..4096 entries
@@ -130,6 +133,8 @@ PLAN = {
         "jobs": [
             {"monitor": "c14_sweep", "variant": "rel", "shards": 16},
             {"monitor": "c14_sweep", "variant": "dbg", "shards": 16},
+            {"monitor": "c14_nested", "variant": "rel", "shards": 8},
+            {"monitor": "c14_nested", "variant": "dbg", "shards": 8},
             {"monitor": "c14_aborts", "variant": "rel", "shards": 2},
             {"monitor": "c14_import", "variant": "rel", "shards": 16},
             {"monitor": "c14_import", "variant": "dbg", "shards": 8},
@@ -183,6 +188,8 @@ PLAN = {
             {"monitor": "c09_rand", "variant": "rel", "shards": 16},
             {"monitor": "c09_rand", "variant": "dbg", "shards": 8},
             {"monitor": "c09_rand", "variant": "st", "shards": 8},
+            # Boolean view: eval with hostile argument lists and after rejected (panicking) calls
+            {"monitor": "c02_rand", "variant": "rel", "shards": 16},
             {"monitor": "c09_api", "variant": "rel", "shards": 6},
             {"monitor": "c09_api", "variant": "st", "shards": 6},
             {"monitor": "c09_deep", "variant": "rel", "shards": 16},
@@ -249,6 +256,9 @@ PLAN = {
             {"monitor": "c12_natural", "variant": "miri", "shards": 64, "only_shards": 16, "timeout": {"thorough": 3000}, "tiers": ("thorough",)},
             {"monitor": "c12_satcount", "variant": "rel", "shards": 16},
             {"monitor": "c12_satcount", "variant": "st", "shards": 8},
+            # pointer-based manager: node ids are addresses (other bit patterns in cache keys), own gc/reorder epoch counters
+            {"monitor": "c12_satcount", "variant": "pointer", "shards": 8},
+            {"monitor": "c12_cache", "variant": "pointer", "shards": 8},
             {"monitor": "c12_cache", "variant": "rel", "shards": 16},
             {"monitor": "c12_cache", "variant": "dbg", "shards": 8},
         ],
@@ -268,6 +278,8 @@ PLAN = {
             {"monitor": "c13_rand", "variant": "rel", "shards": 16},
             {"monitor": "c13_rand", "variant": "dbg", "shards": 8},
             {"monitor": "c13_rand", "variant": "st", "shards": 8},
+            {"monitor": "c13_rand", "variant": "pointer", "shards": 8},
+            {"monitor": "c13_uniform", "variant": "pointer", "shards": 7},
             {"monitor": "c13_uniform", "variant": "rel", "shards": 7},
         ],
         "require_counters": {"all": ["uniform_draws"]},
@@ -355,6 +367,9 @@ PLAN = {
             {"monitor": "c16_mgr", "variant": "dbg", "shards": 8},
             # the pointer-based manager has its own add_vars / add_named_vars / level bookkeeping
             {"monitor": "c16_mgr", "variant": "pointer", "shards": 8},
+            # histories with add_vars / add_named_vars / rejected batches / a panicking name iterator between operations
+            {"monitor": "c03_hist", "variant": "rel", "shards": 16},
+            {"monitor": "c03_hist", "variant": "pointer", "shards": 8},
             # Miri (manual memory management of the names): 1/64 of the sequence space per shard, ~3 min each
             {"monitor": "c16_map_exh", "variant": "miri", "shards": 64, "only_shards": 16, "param": "hard", "timeout": {"thorough": 3000}, "tiers": ("thorough",)},
         ],
@@ -377,6 +392,9 @@ PLAN = {
             {"monitor": "c17_exh", "variant": "rel", "shards": 16},
             {"monitor": "c17_rand", "variant": "rel", "shards": 16},
             {"monitor": "c17_rand", "variant": "dbg", "shards": 8, "tiers": ("thorough",)},
+            # element type without drop glue (needs_drop::<T>() == false paths)
+            {"monitor": "c17_plain", "variant": "rel", "shards": 8},
+            {"monitor": "c17_plain", "variant": "dbg", "shards": 8},
             {"monitor": "c17_rand", "variant": "miri", "shards": 56, "only_shards": 16, "param": "tiny", "timeout": {"thorough": 3000}, "tiers": ("thorough",)},
         ],
         "require_counters": {"all": ["grows", "rehashes_or_shrinks", "sequences"]},
